@@ -690,6 +690,11 @@ func (g *gen) genArgv(real *Real) []string {
 		case x < g.p.Weird+g.p.Unknown+0.5+g.p.CmdWord && len(cur.Commands()) > 0:
 			subs := cur.Commands()
 			s := subs[r.Intn(len(subs))]
+			if g.chance(0.2) {
+				// a command word that is NOT a child of the current command: sibling, ancestor's child, …
+				allc := real.commandsPreorder()
+				s = allc[r.Intn(len(allc))]
+			}
 			name := s.Name
 			if len(s.Aliases) > 0 && g.chance(0.4) {
 				name = s.Aliases[r.Intn(len(s.Aliases))]
